@@ -10,7 +10,7 @@ from . import common
 LEVEL = "exploration"
 RULE = ("universe of 14 simultaneous registrations for one field: field serialize/deserialize option, field "
         "serialization_strategy, and {call dialect, Config.dialect, Config.serialization_strategy, codec default_dialect}"
-        " x {alias key (Annotated / NewType), exact type, generic origin}. A case enables a subset, with each registration "
+        " x {alias key (Annotated / NewType), exact type, generic origin}; the aliased type also as list element / dict value / Optional member of an (Annotated) outer type. A case enables a subset, with each registration "
         "randomly a dict strategy (both or one direction), a SerializationStrategy object or pass_through; the class is "
         "driven through mixin to_dict/from_dict (with and without dialect=), BasicEncoder/BasicDecoder(dataclass, "
         "default_dialect=) and as a nested field. Oracle: the marker carried by the output names the minimum of the "
@@ -32,9 +32,28 @@ FLAVOURS = {
     "ann_dict": ("AnnD", {"alias": "AnnD", "exact": "Dict[str, int]", "origin": "dict"}, "{'a': 1}", "{'b': 2}"),
     "ann_date": ("AnnDate", {"alias": "AnnDate", "exact": "datetime.date"}, "datetime.date(2020, 1, 2)", "'2020-01-02'"),
     "plain_list": ("List[int]", {"exact": "List[int]", "origin": "list"}, "[1, 2]", "[3]"),
+    # the aliased type below another type (list element / Optional), the outer type itself Annotated or not: field-level
+    # options belong to the whole field, so only the keyed registrations are in play
+    "in_list": ("List[AnnDate]", {"alias": "AnnDate", "exact": "datetime.date"}, "[datetime.date(2020, 1, 2)]", "['2020-01-02']"),
+    "in_ann_list": ("Annotated[List[AnnDate], 'outer']", {"alias": "AnnDate", "exact": "datetime.date"}, "[datetime.date(2020, 1, 2)]", "['2020-01-02']"),
+    "in_ann_optional": ("Annotated[Optional[AnnDate], 'outer']", {"alias": "AnnDate", "exact": "datetime.date"}, "datetime.date(2020, 1, 2)", "'2020-01-02'"),
+    "in_dict": ("Dict[str, AnnDate]", {"alias": "AnnDate", "exact": "datetime.date"}, "{'k': datetime.date(2020, 1, 2)}", "{'k': '2020-01-02'}"),
     # only used by the 'format' entry point: a type the msgpack format dialect itself customises (pass_through)
     "fmt_bytes": ("bytes", {"exact": "bytes"}, "b'ab'", "b'cd'"),
 }
+WRAP = {"in_list": "list", "in_ann_list": "list", "in_ann_optional": None, "in_dict": "dict"}
+
+
+def unwrap(flavour, out):
+    """(ok, element) - the element position the registrations apply to."""
+    w = WRAP.get(flavour)
+    if w == "list":
+        return (isinstance(out, list) and len(out) == 1), (out[0] if isinstance(out, list) and len(out) == 1 else None)
+    if w == "dict":
+        return (isinstance(out, dict) and list(out) == ["k"]), (out["k"] if isinstance(out, dict) and "k" in out else None)
+    return True, out
+
+
 PRE = """
 AnnL = Annotated[List[int], 'tag']
 AnnD = Annotated[Dict[str, int], 'tag']
@@ -100,7 +119,7 @@ def run_case(seed, tier, rec, st):
         flavour = "fmt_bytes" if entry == "format" else rng.choice([f for f in FLAVOURS if f != "fmt_bytes"])
         ann, keymap, val_src, wire_src = FLAVOURS[flavour]
         keys = [k for k in KEYS if k in keymap]
-        universe = [("field_opt", None), ("field_strat", None)]
+        universe = [("field_opt", None), ("field_strat", None)] if flavour not in WRAP else []
         srcs = [s for s in SOURCES if not (s == "dd" and entry != "codec") and not (s == "call" and entry == "codec")]
         universe += [(s, k) for s in srcs for k in keys]
         p = rng.choice([0.15, 0.3, 0.5])
@@ -210,6 +229,12 @@ def run_case(seed, tier, rec, st):
                 rec.violation(f"exception:{direction}:{type(e).__name__}", det(error=f"{type(e).__name__}: {e}"[:300], expected_winner=repr(w)), facts)
                 continue
             given = value if direction == "S" else wire
+            if flavour in WRAP:
+                shape_ok, out = unwrap(flavour, out)
+                _, given = unwrap(flavour, given)
+                if not shape_ok:
+                    rec.violation(f"wrong-level:{direction}", det(direction=direction, expected_winner=repr(w), observed="container shape " + repr(out)[:100]), facts)
+                    continue
             if w is None:
                 # built-in rendering
                 exp_builtin = builtin(flavour, direction, given)
@@ -287,7 +312,7 @@ def format_entry(rec, rng, mod, M, kw, winner, styles, value, wire, det, facts, 
 
 def builtin(flavour, direction, given):
     import datetime
-    if flavour == "ann_date":
+    if flavour == "ann_date" or flavour in WRAP:
         return given.isoformat() if direction == "S" else datetime.date.fromisoformat(given)
     if flavour == "ann_dict":
         return dict(given)
